@@ -367,3 +367,109 @@ func (r *Run) LockCheck(sp LockSpec) {
 	}
 	r.Check("lock-table:"+short, n > 0, "-", fmt.Sprintf("%d guarded accesses of %s found in the module", n, sp.Struct))
 }
+
+// LockDiscover (thorough tier): every mutex-bearing struct of the given
+// packages must have a lock-table entry, and every field of such a struct that
+// is written outside object construction must be listed as guarded or carry a
+// named exemption with a reason.
+func (r *Run) LockDiscover(pkgs []string, tables map[string]LockSpec, exempt map[string]string) {
+	byStruct := map[string]LockSpec{}
+	for _, sp := range tables {
+		byStruct[sp.Struct] = sp
+	}
+	inPkgs := func(path string) bool {
+		for _, p := range pkgs {
+			if ShortPkg(path) == p {
+				return true
+			}
+		}
+		return false
+	}
+	// mutex-bearing structs
+	type sinfo struct {
+		named *types.Named
+		st    *types.Struct
+	}
+	found := map[string]sinfo{}
+	for _, pk := range r.P.Pkgs {
+		if !inPkgs(pk.PkgPath) || pk.Types == nil {
+			continue
+		}
+		sc := pk.Types.Scope()
+		for _, n := range sc.Names() {
+			tn, ok := sc.Lookup(n).(*types.TypeName)
+			if !ok {
+				continue
+			}
+			named, ok := tn.Type().(*types.Named)
+			if !ok {
+				continue
+			}
+			st, ok := named.Underlying().(*types.Struct)
+			if !ok {
+				continue
+			}
+			for i := 0; i < st.NumFields(); i++ {
+				t := TypeName(st.Field(i).Type())
+				if t == "sync.Mutex" || t == "sync.RWMutex" {
+					found[ShortPkg(pk.PkgPath)+"."+n] = sinfo{named, st}
+				}
+			}
+		}
+	}
+	for _, q := range keysOf(found) {
+		sp, ok := byStruct[q]
+		if !r.Check("lock-discovery:table-entry:"+q, ok, r.P.Pos(found[q].named.Obj().Pos()), "mutex-bearing struct "+q+" has a lock-table entry") {
+			continue
+		}
+		guarded := map[string]bool{sp.Mutex: true}
+		for _, f := range sp.Fields {
+			guarded[f] = true
+		}
+		isInit := func(fn *ssa.Function) bool {
+			for _, g := range sp.Init {
+				if glob(g, FuncName(fn)) {
+					return true
+				}
+			}
+			return false
+		}
+		// fields written outside construction
+		written := map[string]ssa.Instruction{}
+		for _, fn := range r.P.ModFuncs {
+			if isInit(fn) {
+				continue
+			}
+			eachInstr(fn, func(in ssa.Instruction) {
+				fa, ok := in.(*ssa.FieldAddr)
+				if !ok {
+					return
+				}
+				pt, ok := fa.X.Type().Underlying().(*types.Pointer)
+				if !ok {
+					return
+				}
+				nt, ok := pt.Elem().(*types.Named)
+				if !ok || nt.Obj() != found[q].named.Obj() {
+					return
+				}
+				if a := baseAlloc(fa.X); a != nil && paramSpill(a) == nil {
+					return // object under construction
+				}
+				if isWriteUse(fa) {
+					f := found[q].st.Field(fa.Field).Name()
+					if _, seen := written[f]; !seen {
+						written[f] = in
+					}
+				}
+			})
+		}
+		for _, f := range keysOf(written) {
+			if guarded[f] {
+				continue
+			}
+			why, ex := exempt[q+"."+f]
+			r.Check("lock-discovery:unlisted-field:"+q+"."+f, ex, r.Where(written[f]), fmt.Sprintf("field %s.%s is written after construction but is neither guarded by %s in the lock table nor exempted (%s)", q, f, sp.Mutex, why))
+		}
+	}
+}
